@@ -28,11 +28,11 @@ Install(s, r) == [s EXCEPT !.nodes = r.nodes, !.ver = r.ver, !.proto = r.proto,
                            !.setbuf = r.setbuf, !.asked = r.asked, !.held = r.held]
 R == Runs[rid]
 Init0 == [nodes |-> EmptyFn, ver |-> R.init.ver, proto |-> R.init.proto, metric |-> TRUE,
-          setbuf |-> EmptyFn, asked |-> {}, held |-> {}]
+          setbuf |-> EmptyFn, asked |-> {}, held |-> EmptyFn]
 
 TInit == rid \in 1..Len(Runs) /\ l = 1 /\ ended = FALSE
          /\ st = [nodes |-> EmptyFn, ver |-> Runs[rid].init.ver, proto |-> Runs[rid].init.proto, metric |-> TRUE,
-                  setbuf |-> EmptyFn, asked |-> {}, held |-> {}]
+                  setbuf |-> EmptyFn, asked |-> {}, held |-> EmptyFn]
 TStep == /\ ~ended /\ l <= Len(R.events)
          /\ \E r \in Results(st, R.events[l], NoHint) :
                /\ r.viol = {}
